@@ -1039,7 +1039,7 @@ def glue_greenback() -> None:
                 # Coroutine is suspended at an await_(); continue tracing into
                 # it via the greenlet stack
                 return None
-            elif orig_coro := frame.pyframe.f_locals.get("orig_coro"):
+            elif (orig_coro := frame.pyframe.f_locals.get("orig_coro")) is not None:
                 # Coroutine is suspended at a regular await
                 return orig_coro
             else:  # pragma: no cover
